@@ -143,6 +143,32 @@ Lemma marked_tags :
    "RelativisticPVector/return_f_hat=True/n=1"; "RelativisticPVector/return_f_hat=True/n=2"].
 Proof. vm_compute. reflexivity. Qed.
 
+(* the marker given as a plain FUNCTION, formulated right after a call with another function of the
+   same qualified name; widths unfolded one level: only Sum, rhoX(., ., .) and FormFactor(., ., ., Lx, dx)
+   occur - no rhoDecoy (the earlier caller's function), no folded width, no phase-space class *)
+Definition chk_hist (h : head) (args : list expr) : bool :=
+  match h with
+  | HOther g =>
+      if String.eqb g "Sum" then true
+      else if String.eqb g "rhoX" then Nat.eqb (length args) 3
+      else if String.eqb g "FormFactor"
+           then Nat.eqb (length args) 5 && arg_is args 3 "Lx" && arg_is args 4 "dx"
+      else false
+  | _ => true
+  end.
+Definition hist_ok (it : string * list expr) : bool :=
+  let trees := snd it in
+  forallb (all_nodes chk_hist) trees && Nat.ltb 0 (total (is_head "rhoX") trees)
+  && Nat.ltb 0 (total (is_head "FormFactor") trees) && negb (existsb (occursb "rhoDecoy") trees).
+Lemma history_only_callers_function :
+  forallb hist_ok gen_marked_hist = true /\
+  map fst gen_marked_hist =
+  ["RelativisticKMatrix/return_t_hat=False/n=1"; "RelativisticKMatrix/return_t_hat=False/n=2";
+   "RelativisticKMatrix/return_t_hat=True/n=1"; "RelativisticKMatrix/return_t_hat=True/n=2";
+   "RelativisticPVector/return_f_hat=False/n=1"; "RelativisticPVector/return_f_hat=False/n=2";
+   "RelativisticPVector/return_f_hat=True/n=1"; "RelativisticPVector/return_f_hat=True/n=2"].
+Proof. split; vm_compute; reflexivity. Qed.
+
 (* semantic reading through occurs_sound: the value of every marked result is independent of what
    the default phase-space class (as a node, or inside an EnergyDependentWidth) denotes *)
 Definition independent_of (f : string) (e : expr) : Prop :=
